@@ -72,19 +72,17 @@ def assigns_request(fi):
     return False
 
 
-def run(ctx):
+def check_retained(ctx, rule):
+    """every request handed to _send_request (directly or returned by a response handler for sending) is the one retained in
+    self.request - the one the retransmission timer re-emits, with the Message ID it was generated with"""
     prog, res = ctx.prog, ctx.res
-    esc = ctx.escape('engine', kills=common.engine_kills(ctx))
     ikesa = prog.cls('ikesa.IkeSa')
-    send = ctx.func('ikesa.IkeSa._send_request')
-
-    # ---------------------------------------------------------------- X1
     sites = []
     for fi in ikesa.methods.values():
         for x in walk_no_nested(fi.node):
             if isinstance(x, ast.Call) and isinstance(x.func, ast.Attribute) and x.func.attr == '_send_request':
                 sites.append((fi, x))
-    ctx.floor('X1 _send_request call sites', len(sites), 3)
+    ctx.floor(rule + ' _send_request call sites', len(sites), 3)
     resp = common.handler_table(ctx, '_process_response')
     for fi, x in sites:
         arg = x.args[0] if x.args else None
@@ -99,16 +97,27 @@ def run(ctx):
                 for ex, h in sorted(resp.items()):
                     for r in returns_retained(ctx, h):
                         ok = False
-                        ctx.bad('X1', ('X1', h.qual, 'return ' + src(r.value)),
+                        ctx.bad(rule, (rule, h.qual, 'return ' + src(r.value)),
                                 'response handler %s returns a request (`%s`) that is not the one retained in '
                                 'self.request: the timer would retransmit a stale request' % (h.name, src(r.value)),
                                 ctx.site(h, r))
                     else:
-                        ctx.ok('X1', 'every request returned by %s is the retained self.request' % h.name,
+                        ctx.ok(rule, 'every request returned by %s is the retained self.request' % h.name,
                                ctx.site(h, h.node))
                 continue
-        ctx.check(ok, 'X1', 'the request sent by %s (`%s`) is the one retained in self.request' % (fi.name, src(arg)),
-                  key=('X1', fi.qual, src(arg)), site=ctx.site(fi, x))
+        ctx.check(ok, rule, 'the request sent by %s (`%s`) is the one retained in self.request' % (fi.name, src(arg)),
+                  key=(rule, fi.qual, src(arg)), site=ctx.site(fi, x))
+
+
+def run(ctx):
+    prog, res = ctx.prog, ctx.res
+    esc = ctx.escape('engine', kills=common.engine_kills(ctx))
+    ikesa = prog.cls('ikesa.IkeSa')
+    send = ctx.func('ikesa.IkeSa._send_request')
+
+    # ---------------------------------------------------------------- X1
+    check_retained(ctx, 'X1')
+    resp = common.handler_table(ctx, '_process_response')
     # every assignment of self.request comes from generate_request / handle_invalid_ke
     nasg = 0
     for fi in ikesa.methods.values():
@@ -338,9 +347,30 @@ def run(ctx):
             ctx.check('time.time()' in t and '.lifetime' in t and okj, 'X5',
                       'soft lifetime = now + configured lifetime + bounded constant jitter (`%s`)' % t,
                       key=('X5', 'rekey-at'), site=ctx.site(fi, n))
-    dl = [(fi, n, v) for fi, n, v in writers.get('delete_ike_sa_at', []) if fi is init]
-    ctx.check(len(dl) == 1 and src(dl[0][2]) == 'self.rekey_ike_sa_at + 30', 'X5',
-              'hard lifetime = soft lifetime + 30 s', key=('X5', 'delete-at'), site=ctx.site(init, init.node))
+    # hard lifetime: armed once, at creation, 30 s after the soft one - and never moved afterwards (value terms, so helpers and
+    # locals in between do not matter)
+    from ..bounds import poly
+    IV = ctx.sval(init)
+    soft, hard = IV.final('self.rekey_ike_sa_at'), IV.final('self.delete_ike_sa_at')
+    ok = soft is not None and hard is not None
+    if ok:
+        diff = dict(poly(hard))
+        for m_, c_ in poly(soft).items():
+            diff[m_] = diff.get(m_, 0) - c_
+        ok = {m_: c_ for m_, c_ in diff.items() if c_} == {(): 30}
+    ctx.check(ok, 'X5', 'hard lifetime = soft lifetime + 30 s', key=('X5', 'delete-at'), site=ctx.site(init, init.node))
+    movers = []
+    for fi in ikesa.methods.values():
+        if fi is init or not isinstance(fi.node, ast.FunctionDef):
+            continue
+        for t_, v_, _, st_, _ in ctx.sval(fi).stores:
+            if t_[0] == 'attr' and t_[2] == 'delete_ike_sa_at':
+                movers.append((fi, st_))
+    for fi, st_ in movers:
+        ctx.bad('X5', ('X5', 'hard-lifetime-moved', fi.qual), 'the hard lifetime of the IKE_SA (delete_ike_sa_at) is re-armed in %s: an IKE_SA '
+                'whose rekey keeps failing would outlive its hard lifetime' % fi.name, ctx.site(fi, st_))
+    if not movers:
+        ctx.ok('X5', 'the hard lifetime is armed at creation only (no other writer of delete_ike_sa_at)', ctx.site(init, init.node))
     rk = ctx.func('ikesa.IkeSa.check_rekey_ike_sa_timer')
     gr = esc.add_exception_edges(rk)
     hard = [c for c in gr.nodes if c.kind == 'cond' and 'self.delete_ike_sa_at' in src(c.ast)]
